@@ -60,9 +60,7 @@ structure Emits (g g' : GenState) (P : State → State → Prop) : Prop where
 structure PreReg (e : Expr) (no : Nat) (long : Bool) (g : GenState) : Prop where
   leaves : leavesOwned g.owners e
   frag : e.frag = true
-  inplace : unaryInPlace e true = false
   narrow : narrowIn64 e long true (.reg no) = false
-  neg32 : neg32in64 e long = false
 
 theorem setReg_correct (e : Expr) (no : Nat) (long : Bool) (g g' : GenState) (hp : PreReg e no long g)
     (h : setReg no long (.ex e) g = .ok ((), g')) :
@@ -89,8 +87,8 @@ theorem setReg_correct (e : Expr) (no : Nat) (long : Bool) (g g' : GenState) (hp
     · rename_i hc; simpa using hc
     · simp
   have hpre : Pre e (some no) long true g1 :=
-    ⟨fun n hn => (by cases hn; exact hno), fun _ => (by simp), leavesOwned_mono hsub hp.leaves, hp.frag, hp.inplace,
-      hp.narrow, hp.neg32⟩
+    ⟨fun n hn => (by cases hn; exact hno), fun _ => (by simp), leavesOwned_mono hsub hp.leaves, hp.frag,
+      hp.narrow⟩
   have post := calc_correct e (some no) long true g1 g2 res hpre hcalc
   obtain ⟨c, hc, hst, hrun⟩ := post.run
   have hreg : res.reg = no := by
@@ -110,9 +108,7 @@ structure PreMem (e : Expr) (fmt : Fmt) (base : Nat) (g : GenState) : Prop where
   base : base ∈ g.owners
   leaves : leavesOwned g.owners e
   frag : e.frag = true
-  inplace : unaryInPlace e false = false
   narrow : narrowIn64 e fmt.isLong false .any = false
-  neg32 : neg32in64 e fmt.isLong = false
 
 theorem setMem_correct (e : Expr) (fmt : Fmt) (addr : Expr) (base : Nat) (off : Int) (g g' : GenState)
     (hs : addr.asSum = some (base, off)) (hp : PreMem e fmt base g)
@@ -153,7 +149,7 @@ theorem setMem_correct (e : Expr) (fmt : Fmt) (addr : Expr) (base : Nat) (off : 
     rw [release_ok] at hr1 h
     cases hem; cases hr1; cases h
     have hpre : Pre e none fmt.isLong false g :=
-      ⟨fun n hn => (by cases hn), fun hf => (by cases hf), hp.leaves, hp.frag, hp.inplace, hp.narrow, hp.neg32⟩
+      ⟨fun n hn => (by cases hn), fun hf => (by cases hf), hp.leaves, hp.frag, hp.narrow⟩
     have post := calc_correct e none fmt.isLong false g g2 vres hpre hcalc
     obtain ⟨c, hc, hst, hrun⟩ := post.run
     refine ⟨⟨⟨c ++ [⟨Consts.op_STX + fmt.sizeOp, base, vres.reg, off, 0⟩], by simp [hc], ?_, ?_⟩, by simpa using post.stack⟩, ?_⟩
